@@ -44,7 +44,8 @@ class Contract:
     """Pre/postconditions by cases, used on both sides: assumed at call sites, checked against the
     callee's own body by the callee's unit."""
 
-    def __init__(self, qualname, requires, cases, modifies=None, bind=None, suspends=False):
+    def __init__(self, qualname, requires, cases, modifies=None, bind=None, suspends=False, checkpoints=False):
+        self.checkpoints = checkpoints  # the callee checks cancellation before any effect (proved by its own C08 obligations)
         self.suspends = suspends  # coroutine that may suspend: other tasks run between call and return
         self.qualname = qualname
         self.requires = requires  # fn(h, a) -> [(name, term)]
@@ -72,6 +73,9 @@ class Contract:
             # the callee may suspend any number of times: the caller's invariant is asserted, the heap is replaced by
             # an arbitrary one satisfying the invariant (+ rely), then the callee's postcondition is assumed
             a.case = case.name
+            if self.checkpoints:
+                ctx.unit.on_cancellation_check(ip, "callee")
+                ctx.flags["checked"] = True
             lib.suspend(ip, "call:" + self.qualname, a)
             post = H(st)
             ret = None
@@ -244,6 +248,9 @@ class Unit:
     def after_suspending_call(self, ip, contract, a, case, exc, ret=None):
         pass
 
+    def on_cancellation_check(self, ip, kind):
+        pass
+
     def init_object(self, ip, info, ref):
         pass
 
@@ -278,6 +285,17 @@ class ClassSpec:
 
     def assumed_terms(self, h, s, cur):
         return [(n, fn(h, s, cur)) for n, fn in self.assumed]
+
+
+class C08:
+    """Checkpoint discipline of one operation (property C08).
+    unchanged(a, b, unit) -> term: the operation's abstract state is the same in heaps a and b
+    exempt(pre, unit) -> term | None: states in which the yield may be skipped (documented fast_acquire mode)
+    kind: "blocking" (must check cancellation before any effect and yield before returning) or
+          "nowait" (explicitly synchronous: no suspension point at all)"""
+
+    def __init__(self, unchanged, exempt=None, kind="blocking"):
+        self.unchanged, self.exempt, self.kind = unchanged, exempt, kind
 
 
 class MethodUnit(Unit):
@@ -335,7 +353,55 @@ class MethodUnit(Unit):
         for n, t in self.spec.inv_terms(h, s, cur):
             ip.ctx.oblige(f"{self.qualname}{site}/inv:{n}", t, "inv")
 
+    c08: C08 = None
+
+    def props_of(self, obligation_name):
+        if "/c08:" in obligation_name:
+            return {"C08"}
+        return set(self.props) - {"C08"}
+
+    def on_cancellation_check(self, ip, kind):
+        """called when the code reaches checkpoint() / checkpoint_if_cancelled() (or a callee whose contract says it
+        checks cancellation first): K2 -- nothing has been acquired, sent, consumed or started before the first check"""
+        if self.c08 is None or getattr(self, "_c08_checked", False):
+            return
+        self._c08_checked = True
+        ip.ctx.oblige(f"{self.qualname}/c08:cancellation_is_checked_before_any_effect", self.c08.unchanged(self.c08_entry, H(ip.st), self), "post")
+
+    def c08_before_suspend(self, ip, what):
+        if self.c08 is None:
+            return
+        if self.c08.kind == "nowait":
+            ip.ctx.fail(f"{self.qualname}/c08:explicitly_synchronous_call_has_no_suspension_point", "post", f"suspends at {what}")
+        elif what not in ("checkpoint", "checkpoint_if_cancelled", "cancel_shielded_checkpoint"):
+            # a genuine wait (pending future, unset event, blocking callee): the operation could not complete without
+            # waiting, which is C03's territory (the wait itself is interruptible), not C08's
+            self._c08_waited = True
+        elif not getattr(self, "_c08_checked", False) and not getattr(self, "_c08_flagged", False):
+            self._c08_flagged = True
+            ip.ctx.fail(f"{self.qualname}/c08:cancellation_is_checked_before_the_first_suspension", "post", f"suspends at {what} before any cancellation check")
+
+    def c08_exit(self, ip, pre, exc):
+        if self.c08 is None:
+            return
+        ctx = ip.ctx
+        n = ctx.flags["suspended"]
+        if self.c08.kind == "nowait":
+            ctx.oblige(f"{self.qualname}/c08:explicitly_synchronous_call_has_no_suspension_point", z3.BoolVal(n == 0), "post")
+            return
+        if exc is None:
+            ctx.oblige(f"{self.qualname}/c08:is_a_checkpoint_even_when_it_completes_without_waiting", z3.BoolVal(getattr(self, "_c08_checked", False) or getattr(self, "_c08_waited", False)), "post")
+            ex = self.c08.exempt(pre, self) if self.c08.exempt is not None else None
+            goal = z3.BoolVal(n >= 1) if ex is None else z3.Or(z3.BoolVal(n >= 1), ex)
+            ctx.oblige(f"{self.qualname}/c08:yields_to_the_event_loop_before_returning", goal, "post")
+        elif exc.pycls is not None and exc.pycls.__name__ == "CancelledError" and n == 1 and getattr(self, "_c08_first_was_check", False):
+            # interrupted at its very first suspension, which was the cancellation check: no effect (K2)
+            ctx.oblige(f"{self.qualname}/c08:cancelled_on_entry_performs_no_effect", self.c08.unchanged(self.seg, H(ip.st), self), "post")
+
     def before_suspend(self, ip, what, payload):
+        if ip.ctx.flags["suspended"] == 0:
+            self._c08_first_was_check = what in ("checkpoint", "checkpoint_if_cancelled")
+        self.c08_before_suspend(ip, what)
         self.ghost_suspend(ip, what, payload)
         self.assert_inv(ip, f"@suspend[{what}]")
         self.assert_guarantee(ip, f"@suspend[{what}]")
@@ -404,6 +470,8 @@ class MethodUnit(Unit):
             for n, t in self.contract.requires(pre, a):
                 st.assume(t)
         self.seg = pre
+        self.c08_entry = pre
+        self._c08_checked = self._c08_flagged = self._c08_first_was_check = self._c08_waited = False
         self.acc = {}
         self.on_entry(ip, pre, a)
         if self.is_setter:
@@ -437,6 +505,7 @@ class MethodUnit(Unit):
                 ctx.oblige(f"{self.qualname}/frame", z3.BoolVal(True), "frame")
         if self.contract is not None:
             self.contract.check_exit(ip, pre, a, exc, ret, self.qualname)
+        self.c08_exit(ip, pre, exc)
         self.on_exit(ip, pre, a, exc, ret)
 
     def on_entry(self, ip, pre, a):
